@@ -261,7 +261,7 @@ func init() {
 	explore.Register(&explore.Check{
 		ID:         "C14",
 		Level:      "fault_enumeration",
-		ShardDepth: 4,
+		ShardDepth: 5,
 		Body:       body,
 		Rule: "(i) every byte string of length <= 6 (quick) / <= 7 (thorough) over {[ ] = \" : ; # space LF CR a \\ 0xFF} read into a declaration whose option, ini-name and group are reachable over that alphabet (map option a, group a, ini-name aa); " +
 			"(ii) every file of <= 3 (quick) / <= 4 (thorough) lines over 37 lines, and of 4 / 5 lines over the 28 of them that are short: 8 valid entries (scalar, int, slice, map, bool, quoted, group and command options), 3 headers, 8 noise lines (empty, blanks, ; and # comments, 4095/4096/10000-byte comments, a 4097-byte value) and 2 entries whose line is exactly one / two read buffers long (4096 / 8192 bytes), " +
@@ -271,7 +271,7 @@ func init() {
 		Assumptions:  []string{"options assigned from more than one section are not compared (section order is C15's subject)", "values are not compared once an error is returned"},
 		RequiredHits: []string{"clean", "single-fault", "crlf", "long-line", "fault:unknown option", "fault:unconvertible value", "fault:unknown section", "fault:bad quoting", "fault:no key=value", "fault:section header"},
 		Bound:        [2]string{"byte strings <= 6; files <= 3 lines (4 without the long lines)", "byte strings <= 7; files <= 4 lines (5 without the long lines)"},
-		BudgetS:      [2]int{100, 1500},
+		BudgetS:      [2]int{170, 1500},
 	})
 }
 
